@@ -136,7 +136,8 @@ namespace cnl {
                          ? _impl::overflow_operator<
                                  Operator, _impl::common_overflow_tag_t<LhsTag, RhsTag>,
                                  _impl::polarity::negative>{}(lhs, rhs)
-                         : Operator{}(lhs, rhs);
+                 : lhs   ? Operator{}(lhs, rhs)
+                         : _impl::op_result<Operator, Lhs, Rhs>{};
         }
     };
 
